@@ -139,8 +139,9 @@ theorem claimE_succ {n : Nat} (hB : ClaimB n) (hC : ClaimC n) (hS : ClaimS n) : 
     rw [F0c] at he
     simp only [Bool.and_eq_true, Bool.not_eq_true', List.isEmpty_eq_false_iff] at he
     rw [compile] at hc
-    rw [Ref.eval] at hr
-    exact hB es he.1 he.2 isFn c gs r hc env rs v rs' hr
+    · rw [Ref.eval] at hr
+      exact hB es he.1 he.2 isFn c gs r hc env rs v rs' hr
+    · exact he.1   -- (begin) with no statements is a separate clause since fix C04-02
   | cond arms d =>
     rw [F0c] at he
     simp only [Bool.and_eq_true] at he
@@ -331,7 +332,8 @@ theorem compile_total : ∀ (e : Expr), F0c e = true → ∀ isFn c gs, ∃ code
     rw [F0c] at he
     simp only [Bool.and_eq_true, Bool.not_eq_true', List.isEmpty_eq_false_iff] at he
     rw [compile]
-    exact compileBegin_total es he.1 he.2 isFn c gs
+    · exact compileBegin_total es he.1 he.2 isFn c gs
+    · exact he.1   -- (begin) with no statements is a separate clause since fix C04-02
   | .cond arms d, he, isFn, c, gs => by
     rw [F0c] at he
     simp only [Bool.and_eq_true] at he
@@ -399,7 +401,7 @@ theorem compileArms_total : ∀ (arms : List (Expr × Expr)), F0cArms arms = tru
   | (p, b) :: arms, he, isFn, c, gs => by
     rw [F0cArms] at he
     simp only [Bool.and_eq_true] at he
-    obtain ⟨pc, hp⟩ := compile_total p he.1.1 isFn { c with tail := false, scopes := 0 } gs
+    obtain ⟨pc, hp⟩ := compile_total p he.1.1 isFn { c with tail := false } gs   -- the test inherits `scopes` since fix C04-06
     obtain ⟨bc, hb⟩ := compile_total b he.1.2 isFn c gs
     obtain ⟨r, hr⟩ := compileArms_total arms he.2 isFn c gs
     rw [compileArms]
